@@ -6,7 +6,7 @@ Decided (OCC obligations of scan_border<V> and the layer scan; DESIGN.md section
   R-RBK   rollback-before-retry: a retry never keeps results of the discarded attempt
   R-RV    remove-visible validation of pushed values (out-of-line value types)
 """
-from yk.facts import AnalysisBroken, CALL_KINDS, call_args, call_recv, is_call, root_var, short_loc
+from yk.facts import AnalysisBroken, CALL_KINDS, call_args, call_recv, is_call, root_var, short_loc, vname
 from yk import rules as R
 from checks import occ, scanocc
 from checks.C01 import snap_rule
@@ -84,7 +84,108 @@ def run(S):
     S.require('R-SNAP', 'non-retry returns of scan_border', nr, 8)
     S.require('R-RBK', 'retry edges of scan_border', nt, 4)
     rule_rbk_layer(S)
+    rule_rbk_sizes(S)
     rule_end_layer(S)
+
+
+SHRINKS = ('erase', 'resize', 'pop_back', 'clear')
+
+
+def rule_rbk_sizes(S, rule='R-RBK'):
+    """Every shrink inside a roll-back closure restores the container to the size that was recorded for *that*
+    container (a closure parameter bound at the call sites, or a by-value capture, defined from C.size())."""
+    facts = S.facts()
+    fns = [f for f in facts.by_qname(Y + 'scan') if f.params and f.params[0]['type'].startswith('yakushima::base_node *')]
+    fns += [f for f in facts.by_qname(Y + 'scan_border') if not f.is_lambda]
+    n = 0
+    for f in fns:
+        defs = {}   # local of f -> set of containers whose size() it was defined from ('?' = something else)
+        for nd in f.all_nodes():
+            tgt = src = None
+            if nd['k'] == 'DeclStmt':
+                for v in nd.get('vars', []):
+                    if 'init' in v and _is_size_t(v['type']):
+                        defs.setdefault(v['id'], set()).add(_size_container(f, f.node(v['init'])))
+            elif nd['k'] == 'BinaryOperator' and nd.get('op') == '=':
+                l = f.strip(f.ch(nd)[0], casts=True)
+                if l is not None and l['k'] == 'DeclRefExpr' and _is_size_t(l.get('ty') or ''):
+                    defs.setdefault(l['id'], set()).add(_size_container(f, f.ch(nd)[1]))
+        for g in facts.lambdas_of(f):
+            shr = [x for x in g.all_nodes() if x['k'] == 'CXXMemberCallExpr' and x.get('cn') in SHRINKS]
+            if not shr:
+                continue
+            gparams = [p['id'] for p in g.params]
+            ginit = {}
+            for nd in g.all_nodes():
+                if nd['k'] == 'DeclStmt':
+                    for v in nd.get('vars', []):
+                        if 'init' in v:
+                            ginit[v['id']] = f.node(v['init']) if False else g.node(v['init'])
+            calls = [(h, c) for h in [f] + list(facts.lambdas_of(f)) for c in h.all_nodes()
+                     if R.lambda_target(facts, h, c) is not None and R.lambda_target(facts, h, c).fid == g.fid]
+            for x in shr:
+                cont = root_var(g, call_recv(g, x))
+                carriers = set()
+                seen = set()
+                work = [a for a in call_args(g, x)]
+                while work:
+                    a = work.pop()
+                    for y in g.walk(a):
+                        if y['k'] == 'DeclRefExpr' and y.get('id') not in seen:
+                            seen.add(y['id'])
+                            if y['id'] in gparams or (y['id'] in defs and y['id'] not in ginit):
+                                carriers.add(y['id'])
+                            elif y['id'] in ginit:
+                                work.append(ginit[y['id']])
+                n += 1
+                fname = f.qname + '<%s>' % f.targs
+                site = '%s of %s in the roll-back closure at %s' % (x.get('cn'), vname(cont) if cont else '?', short_loc(x))
+                if x.get('cn') == 'clear' and not carriers:
+                    S.ob(rule, fname, site, False, 'the roll-back empties the container instead of restoring the size recorded at entry (results of enclosing levels are lost)', loc=short_loc(x))
+                    continue
+                if len(carriers) != 1:
+                    S.ob(rule, fname, site, False, 'the shrink does not depend on exactly one recorded size (%s)' % ', '.join(sorted(vname(c) for c in carriers)), loc=short_loc(x))
+                    continue
+                car = next(iter(carriers))
+                recorded_for = set()
+                if car in gparams:
+                    i = gparams.index(car)
+                    for (h, c) in calls:
+                        a = call_args(h, c)
+                        if c['k'] == 'CXXOperatorCallExpr':
+                            a = a[1:]   # the closure object itself
+                        av = root_var(h, a[i]) if i < len(a) else None
+                        recorded_for |= defs.get(av, {'?'})
+                    if not calls:
+                        recorded_for.add('?')
+                else:
+                    recorded_for |= defs.get(car, {'?'})
+                recorded_for.discard('0')
+                ok = recorded_for == {cont}
+                S.ob(rule, fname, site, ok,
+                     'restores the size recorded for this container' if ok else
+                     'the container is cut back to a size that was recorded for %s: the roll-back removes entries of '
+                     'enclosing levels (or leaves entries of the discarded attempt)' % ', '.join(sorted(vname(c) if c not in ('?',) else 'something else' for c in recorded_for)),
+                     loc=short_loc(x))
+    S.require(rule, 'shrinks in roll-back closures', n, 4)
+
+
+def _is_size_t(t):
+    return t.replace('const', '').strip() in ('std::size_t', 'unsigned long', 'size_t')
+
+
+def _size_container(f, nd):
+    x = f.strip(nd, casts=True)
+    if x is not None and x['k'] == 'InitListExpr' and f.ch(x):
+        x = f.strip(f.ch(x)[0], casts=True)
+    if x is not None and x['k'] in CALL_KINDS and x.get('cn') == 'size':
+        return root_var(f, call_recv(f, x)) or '?'
+    if x is None or (x['k'] == 'InitListExpr' and not f.ch(x)):
+        return '0'
+    from yk.facts import cv_through
+    if cv_through(f, x) == 0:
+        return '0'
+    return '?'
 
 
 def rule_rbk_layer(S):
@@ -106,7 +207,7 @@ def rule_rbk_layer(S):
                     for v in nd.get('vars', []):
                         entry_vars.add(v['id'])
         lambdas = {g.fid: g for g in facts.lambdas_of(f)}
-        rb = {fid for fid, g in lambdas.items() if any(x['k'] == 'CXXMemberCallExpr' and x.get('cn') == 'erase'
+        rb = {fid for fid, g in lambdas.items() if any(x['k'] == 'CXXMemberCallExpr' and x.get('cn') in SHRINKS
                                                        for x in g.all_nodes())}
         sites = {}
         from yk.flow import Explorer
